@@ -12,6 +12,7 @@ void out_z(long long v);
 void out_u(unsigned long long v);
 void out_bytes(const uint8_t *p, size_t n);
 void out_words(const uint32_t *w, size_t nwords);
+void save_output(int lineno, const uint8_t *p, size_t n);
 void api_init(void);
 int api_op(const char *name, int lineno);
 void api_fini(void);
